@@ -149,6 +149,10 @@ func alphabet() []stmt {
 		{Kind: "construct", S: B("?s"), Pairs: []pair{{CP(Q), B("?o")}, {CP(model.PI("w")), tterm{O: model.OL(bqlm.LInt)}}}, Into: []string{"?b"}, From: []string{"?a"}, Where: pw},
 		// reification, temporal fact, extra pair with a binding
 		{Kind: "construct", S: B("?s"), Pairs: []pair{{tterm{ID: "q", Anchor: "?t"}, B("?o")}, {CP(model.PI("w")), B("?s")}}, Into: []string{"?c"}, From: []string{"?a", "?b"}, Where: tw},
+		// reification whose reified fact is the same for every solution row (constant, or built from a part of the
+		// row's bindings): still one fresh blank node per row, each with that row's extra fact
+		{Kind: "construct", S: tterm{N: c}, Pairs: []pair{{CP(Q), tterm{O: model.OL(bqlm.LText)}}, {CP(model.PI("w")), B("?o")}}, Into: []string{"?b"}, From: []string{"?a"}, Where: pw},
+		{Kind: "construct", S: B("?s"), Pairs: []pair{{CP(Q), tterm{N: c}}, {CP(model.PI("w")), B("?o")}}, Into: []string{"?c"}, From: []string{"?a"}, Where: all},
 		{Kind: "deconstruct", S: B("?s"), Pairs: []pair{{CP(P), B("?o")}}, Into: []string{"?a"}, From: []string{"?b"}, Where: qw},
 		{Kind: "deconstruct", S: B("?s"), Pairs: []pair{{B("?p"), B("?o")}}, Into: []string{"?a", "?b"}, From: []string{"?a"}, Where: all},
 		// must be rejected before execution starts
